@@ -201,7 +201,9 @@ def check_case(case) -> Obs:
             wl.max_volume = 100  # 300 is split into 3 pairs
             run(f"{dev}.aspirate", lambda: wl.aspirate(A, ["A01", "B02"], [3, 4], tip=make()), 2, wl)
             run(f"{dev}.dispense", lambda: wl.dispense(B, ["A01", "C01"], 5, tip=make()), 2, wl)
-            recs = run(f"{dev}.transfer", lambda: wl.transfer(A, ["A01", "B01"], B, ["B02", "A02"], [7, 300], tip=make(), wash_scheme="reuse"), 8, wl)
+            # together with other pass-through arguments in every other case (the mask belongs to both records of a pair regardless)
+            extra = {"rack_id": "BC-1", "tube_id": "t9", "liquid_class": "LC"} if (len(tips) + len(dev)) % 2 == 0 else {}
+            recs = run(f"{dev}.transfer", lambda: wl.transfer(A, ["A01", "B01"], B, ["B02", "A02"], [7, 300], tip=make(), wash_scheme="reuse", **extra), 8, wl)
             if recs:
                 for a, d in zip(recs[0::2], recs[1::2]):
                     if a[0] != "A" or d[0] != "D" or ad_field(a) != ad_field(d):
